@@ -75,6 +75,18 @@ theorem C04_fail_closed (A : Aead) (r : Rx) (chunk : Bytes) (hopen : r.closed = 
 theorem C04_closed_silent (A : Aead) (r : Rx) (h : r.closed = true) (cs : List Bytes) :
     Rx.run A r cs = (r, []) := run_closed A cs r h
 
+/-- The upgrade boundary. If the HTTP parser holds nothing when the session is installed, the secured
+    connection behaves exactly as `C04_authentic` says. If it still holds plaintext that was received
+    before the session existed (e.g. appended to the segment of the pair-verify request by someone on
+    the path), the connection is closed and NOTHING is ever handed to the HTTP layer of the secured
+    connection — neither the leftover nor anything sent later — whatever arrives in whatever chunking. -/
+theorem C04_upgrade (A : Aead) (leftover : Bytes) (cs : List Bytes) :
+    (leftover = [] → Rx.run A (upgrade leftover) cs = Rx.run A {} cs) ∧
+    (leftover ≠ [] → Rx.run A (upgrade leftover) cs = ({ closed := true }, [])) := by
+  constructor
+  · intro h; simp [upgrade, h]
+  · intro h; simp only [upgrade, h, if_false]; exact run_closed A cs _ rfl
+
 /-- The loop as it was before the repair (`>` instead of `>=`) does not deliver a complete
     19-byte frame (1-byte payload) that sits at the end of the buffer; the repaired loop does. -/
 theorem C04_legacy_counterexample :
